@@ -252,7 +252,169 @@ func extractTableOpt(fn *ssa.Function, cut bool) (*dtable, error) {
 	if err := walk(frame{b: fn.Blocks[0], path: map[*ssa.BasicBlock]*ssa.BasicBlock{}}, 0); err != nil {
 		return nil, err
 	}
+	expandMapLookups(t)
 	return t, nil
+}
+
+// constMapOf: the entries of a package-level map that is a read-only table: assigned once, in the package
+// initialiser, from a map literal of constants, and never updated, deleted from, re-assigned or handed out (every other
+// use in the module is a lookup, a len or a range). nil when the global is not such a table.
+func constMapOf(g *ssa.Global) (keys, vals []*ssa.Const) {
+	if resolveProg == nil || g.Pkg == nil {
+		return nil, nil
+	}
+	if _, isMap := g.Type().(*types.Pointer).Elem().Underlying().(*types.Map); !isMap {
+		return nil, nil
+	}
+	fns := append([]*ssa.Function{}, resolveProg.ModFns...)
+	initFn := g.Pkg.Func("init")
+	if initFn != nil {
+		fns = append(fns, initFn)
+	}
+	nStores := 0
+	scanned := map[*ssa.Function]bool{}
+	for _, fn := range fns {
+		if scanned[fn] {
+			continue
+		}
+		scanned[fn] = true
+		for _, b := range fn.Blocks {
+			for _, in := range b.Instrs {
+				switch x := in.(type) {
+				case *ssa.Store:
+					if x.Addr != ssa.Value(g) {
+						if x.Val == ssa.Value(g) {
+							return nil, nil
+						}
+						continue
+					}
+					mm, isMake := x.Val.(*ssa.MakeMap)
+					if fn != initFn || !isMake {
+						return nil, nil
+					}
+					nStores++
+					for _, r := range *mm.Referrers() {
+						switch u := r.(type) {
+						case *ssa.MapUpdate:
+							k, isK := u.Key.(*ssa.Const)
+							v, isV := u.Value.(*ssa.Const)
+							if !isK || !isV {
+								return nil, nil
+							}
+							keys, vals = append(keys, k), append(vals, v)
+						case *ssa.Store, *ssa.DebugRef:
+						default:
+							return nil, nil
+						}
+					}
+				case *ssa.UnOp:
+					if x.Op != token.MUL || x.X != ssa.Value(g) {
+						continue
+					}
+					for _, r := range *x.Referrers() {
+						switch u := r.(type) {
+						case *ssa.Lookup, *ssa.Range, *ssa.DebugRef:
+						case *ssa.Call:
+							if b, isB := u.Call.Value.(*ssa.Builtin); !isB || b.Name() != "len" {
+								return nil, nil
+							}
+						default:
+							return nil, nil
+						}
+					}
+				default:
+					for _, op := range in.Operands(nil) {
+						if op != nil && *op == ssa.Value(g) {
+							return nil, nil
+						}
+					}
+				}
+			}
+		}
+	}
+	if nStores != 1 || len(keys) == 0 {
+		return nil, nil
+	}
+	return keys, vals
+}
+
+// expandMapLookups: a decoder that looks its argument up in a read-only package-level table of constants is the
+// table: a row under the "found" outcome of such a lookup becomes one row per entry (argument == key, the looked-up
+// value replaced by the entry's constant), a row under "not found" gets argument != key for every key.
+func expandMapLookups(t *dtable) {
+	lookupOf := func(v ssa.Value) (*ssa.Lookup, []*ssa.Const, []*ssa.Const) {
+		ex, ok := v.(*ssa.Extract)
+		if !ok {
+			return nil, nil, nil
+		}
+		lk, ok := ex.Tuple.(*ssa.Lookup)
+		if !ok || !lk.CommaOk {
+			return nil, nil, nil
+		}
+		ld, ok := lk.X.(*ssa.UnOp)
+		if !ok || ld.Op != token.MUL {
+			return nil, nil, nil
+		}
+		g, ok := ld.X.(*ssa.Global)
+		if !ok {
+			return nil, nil, nil
+		}
+		ks, vs := constMapOf(g)
+		if ks == nil {
+			return nil, nil, nil
+		}
+		return lk, ks, vs
+	}
+	var out []trow
+	for _, r := range t.rows {
+		expanded := false
+		for i, a := range r.conds {
+			ex, isEx := a.v.(*ssa.Extract)
+			if !a.opaque || !isEx || ex.Index != 1 {
+				continue
+			}
+			lk, ks, vs := lookupOf(ex)
+			if lk == nil {
+				continue
+			}
+			rest := append(append([]atom{}, r.conds[:i]...), r.conds[i+1:]...)
+			subj := canon(lk.Index)
+			if a.neg {
+				nr := r
+				nr.conds = rest
+				seen := map[string]bool{}
+				for _, k := range ks {
+					if kk := constKey(k); !seen[kk] {
+						seen[kk] = true
+						nr.conds = append(nr.conds, atom{subj: subj, op: "==", konst: kk, neg: true})
+					}
+				}
+				out = append(out, nr)
+			} else {
+				// later duplicates of a key in a literal do not compile; each key once
+				for j, k := range ks {
+					nr := trow{ret: r.ret, panics: r.panics}
+					nr.conds = append(append([]atom{}, rest...), atom{subj: subj, op: "==", konst: constKey(k)})
+					for ri, rv := range r.vals {
+						if rex, isRex := rv.(*ssa.Extract); isRex && rex.Tuple == ssa.Value(lk) && rex.Index == 0 {
+							nr.vals = append(nr.vals, vs[j])
+							nr.results = append(nr.results, "const:"+constKey(vs[j]))
+						} else {
+							nr.vals = append(nr.vals, rv)
+							nr.results = append(nr.results, r.results[ri])
+						}
+					}
+					out = append(out, nr)
+				}
+			}
+			expanded = true
+			break
+		}
+		if !expanded {
+			out = append(out, r)
+		}
+	}
+	t.rows = out
 }
 
 func contradicts(conds []atom, a atom) bool {
